@@ -2465,10 +2465,21 @@ func builderBrackets(v ssa.Value) (string, string, bool) {
 		return -1
 	}
 	constOf := func(w *ssa.Call) (string, bool) {
-		if w.Call.StaticCallee().Name() != "WriteString" || len(w.Call.Args) != 2 {
+		if len(w.Call.Args) != 2 {
 			return "", false
 		}
-		return constString(w.Call.Args[1])
+		switch w.Call.StaticCallee().Name() {
+		case "WriteString":
+			return constString(w.Call.Args[1])
+		case "WriteByte", "WriteRune":
+			// a bracket written as a single character
+			if k, ok := w.Call.Args[1].(*ssa.Const); ok && k.Value != nil && k.Value.Kind() == constant.Int {
+				if v, exact := constant.Int64Val(k.Value); exact && v > 0 && v < 0x110000 {
+					return string(rune(v)), true
+				}
+			}
+		}
+		return "", false
 	}
 	var first, last *ssa.Call
 	for _, w := range writes {
